@@ -40,7 +40,10 @@ Ev == TraceLog[l]
 tvars == <<done, files, lines, ts, l, up>>
 
 NormFn(f) == IF f = <<>> THEN N!EmptyFn ELSE f
-AsLine(x) == [t |-> x.t, k |-> x.k, v |-> x.v, name |-> [base |-> x.name.base, sub |-> x.name.sub, x |-> x.name.x, procs |-> x.name.procs], m |-> x.m]
+AsName(n) == IF "more" \in DOMAIN n
+             THEN [base |-> n.base, sub |-> n.sub, x |-> n.x, procs |-> n.procs, more |-> [i \in 1..Len(n.more) |-> <<n.more[i][1], n.more[i][2]>>]]
+             ELSE [base |-> n.base, sub |-> n.sub, x |-> n.x, procs |-> n.procs]
+AsLine(x) == [t |-> x.t, k |-> x.k, v |-> x.v, name |-> AsName(x.name), m |-> x.m]
 AsTerm(x) == [k |-> x.k, op |-> x.op, v |-> x.v]
 Terms(e) == [i \in 1..Len(e.terms) |-> AsTerm(e.terms[i])]
 
